@@ -39,7 +39,7 @@ def gen_plan(seed, tier="quick", variant=None):
     rng = random.Random(seed * 2654435761 % (2 ** 31) + 9)
     thorough = tier == "thorough"
     if variant is None:
-        variant = rng.choice(["faulty", "faulty", "churn", "clean", "assign"])
+        variant = rng.choice(["faulty", "faulty", "churn", "clean", "assign", "overlap", "overlap"])
     nb = rng.randint(1, 3)
     ntop = rng.randint(1, 3)
     topics = []
@@ -119,6 +119,20 @@ def gen_plan(seed, tier="quick", variant=None):
                 faults.append({"t": round(rng.random() * horizon, 6), "act": "cut_conns", "node": None})
             elif kind == "refuse":
                 faults.append({"kind": "connect", "nth": rng.randint(0, 8), "what": rng.choice(["refused", "blackhole"]), "count": rng.choice([1, 3])})
+    if variant == "overlap":
+        # several retriable errors from different sources overlapping one (slow) rejoin
+        if not phantoms:
+            phantoms.append({"name": "ph0", "topics": names, "session_ms": 1500, "join_t": round(0.5 + rng.random(), 6), "end": "stay", "end_t": 3.0,
+                             "join_delay": rng.choice([0.2, 0.4])})
+        for p in phantoms:
+            p["join_delay"] = rng.choice([0.15, 0.3, 0.5])
+        for _ in range(rng.randint(2, 5)):
+            api = rng.choice([12, 12, 8, 11, 14])
+            code = {12: [22, 27, 25, 16], 8: [22, 25, 27], 11: [27, 15, 16, 25], 14: [27, 22, 16]}[api]
+            f = {"api": api, "node": None, "nth": rng.randint(0, 8), "act": "error", "code": rng.choice(code), "count": rng.choice([1, 2, 3])}
+            if rng.random() < 0.6:
+                f["delay"] = round(rng.choice([0.05, 0.12, 0.25]), 6)
+            faults.append(f)
     t_end = max([horizon] + [f["t"] for f in faults if "t" in f] + [o["t"] for o in ops] + [p["end_t"] for p in phantoms] + [p["join_t"] for p in phantoms])
     plan = {"family": FAMILY, "seed": seed, "tier": tier, "cfg": cfg, "ops": ops, "faults": faults, "phantoms": phantoms,
             "t_faults_end": round(t_end + 0.05, 6)}
